@@ -221,7 +221,8 @@ func tsBuildView(id int, tc *tsCase) (*proto.Case, *tsView) {
 	for _, u := range uris {
 		disk[u] = tc.First[u]
 		txt := viewDoc(tc.First[u])
-		c.Steps = append(c.Steps, proto.Step{M: "fs.write", Path: name(u), Text: txt},
+		// (the file is new on disk: the watcher says so, as it says at the end that the file is gone)
+		c.Steps = append(c.Steps, proto.Step{M: "fs.write", Path: name(u), Text: txt}, watched(name(u), 1),
 			proto.Step{M: "textDocument/didOpen", N: true, P: json.RawMessage(fmt.Sprintf(`{"textDocument":{"uri":%s,"languageId":"lua","version":1,"text":%s}}`, jstr(uri(u)), jstr(txt)))})
 		open[u] = true
 		observe(-1, u, tc.First[u])
@@ -253,7 +254,7 @@ func tsBuildView(id int, tc *tsCase) (*proto.Case, *tsView) {
 		if open[u] {
 			c.Steps = append(c.Steps, proto.Step{M: "textDocument/didClose", N: true, P: json.RawMessage(fmt.Sprintf(`{"textDocument":{"uri":%s}}`, jstr(uri(u))))})
 		}
-		c.Steps = append(c.Steps, proto.Step{M: "fs.delete", Path: name(u)})
+		c.Steps = append(c.Steps, proto.Step{M: "fs.delete", Path: name(u)}, watched(name(u), 3))
 	}
 	return c, v
 }
